@@ -17,6 +17,7 @@ import (
 	"runtime/debug"
 	"sort"
 	"strings"
+	"syscall"
 	"time"
 
 	"golang.org/x/tools/go/packages"
@@ -155,6 +156,8 @@ func cmdRun(args []string) int {
 	fs.Parse(args)
 	ElimConstDiv = !*noDivElim
 
+	release := acquireSlot()
+	defer release()
 	t0 := time.Now()
 	prog, spkgs, err := loadProgram(*dir, []string{*pkg}, *overlay, false)
 	if err != nil {
@@ -321,4 +324,31 @@ func runEntry(prog *ssa.Program, fn *ssa.Function, name string, fixed map[string
 		er.Inconclusive = []*Inconclusive{}
 	}
 	return er
+}
+
+// acquireSlot limits the number of gosmt processes running at the same time
+// on this machine (each one also races several solver processes).
+func acquireSlot() func() {
+	n := 10
+	if v := os.Getenv("VERIF_SLOTS"); v != "" {
+		fmt.Sscanf(v, "%d", &n)
+	}
+	if n <= 0 {
+		return func() {}
+	}
+	dir := "/tmp/gosmt.slots"
+	os.MkdirAll(dir, 0o777)
+	for {
+		for i := 0; i < n; i++ {
+			f, err := os.OpenFile(fmt.Sprintf("%s/slot-%d", dir, i), os.O_CREATE|os.O_RDWR, 0o666)
+			if err != nil {
+				continue
+			}
+			if err := syscall.Flock(int(f.Fd()), syscall.LOCK_EX|syscall.LOCK_NB); err == nil {
+				return func() { syscall.Flock(int(f.Fd()), syscall.LOCK_UN); f.Close() }
+			}
+			f.Close()
+		}
+		time.Sleep(2 * time.Second)
+	}
 }
